@@ -87,12 +87,16 @@ func genVersionsCase(r *rand.Rand, cfg Cfg, op string, big bool) Case {
 			continue
 		}
 		ops = append(ops, fmt.Sprintf("load %d 1", a), fmt.Sprintf("load %d 2", b), fmt.Sprintf("%s 1 2", op))
+		if op == "difflinks" && r.Intn(3) == 0 {
+			// the same diff with a link callback that stops it, or fails, after a few events
+			ops = append(ops, fmt.Sprintf("%s 1 2 %d", pick(r, []string{"difflinksstop", "difflinkserr"}), r.Intn(6)))
+		}
 	}
 	return Case{cfg, ops}
 }
 
 func famDiffLinks(f *FamCtx) {
-	f.Report.Rule = "2-6 persisted versions per case (ancestor/descendant chains with 1-4 or up to 40 changes, siblings, unrelated trees, different heights, empty and emptied versions), each reloaded from its root; DiffLinks on ordered pairs: reported names compared with the model's literal diffOne + alreadyNotified, with the reachable sets decoded from the store (complete / within / once), and a replica store holding old + added nodes must load and fully iterate the new version; non-trivial = reached height >= 1 and changed height"
+	f.Report.Rule = "2-6 persisted versions per case (ancestor/descendant chains with 1-4 or up to 40 changes, siblings, unrelated trees, different heights, empty and emptied versions), each reloaded from its root; DiffLinks on ordered pairs: reported names compared with the model's literal diffOne + alreadyNotified, with the reachable sets decoded from the store (complete / within / once), a replica store holding old + added nodes must load and fully iterate the new version; a link callback that stops or fails after j events must see exactly the first events and have its error returned; non-trivial = reached height >= 1 and changed height"
 	f.Gen = func() Case { return genVersionsCase(f.Rand, RandCfg(f.Rand), "difflinks", false) }
 	n := f.N(250, 10000)
 	for i := 0; i < n; i++ {
